@@ -899,3 +899,103 @@ B('f_c12_dispatch_state_moved_adopt_then_ior', ['C12'], 'R12.a',
                                               '            return\n        self.allowed_methods |= methods\n')))
 B('f_c12_dispatch_state_moved_class_level_list', ['C12'], 'R12.a',
   *_moved_dispatch_state(_DS_DEF.replace('    def __init__(self):\n        self.exceptions = []\n', '    exceptions = []\n\n    def __init__(self):\n')))
+
+# =====================================================================================================================
+# round f
+# ---- C12 / R12.a: an object taken out of the caller's */** arguments is the caller's --------------------------------
+_MNA_SUPER = '        super(MethodNotAllowed, self).__init__(*args, **kwargs)\n'
+_HE_POP = "        headers = kwargs.pop('headers', None)\n"
+B('f_c12_caller_mapping_setdefault_through_local', ['C12'], 'R12.a',
+  (E, _MNA_SUPER, "        headers = kwargs.get('headers')\n        if headers is not None:\n            headers.setdefault('Allow', 'GET')\n" + _MNA_SUPER))
+B('f_c12_caller_mapping_fresh_only_on_one_path', ['C12'], 'R12.a',
+  (E, _MNA_SUPER, "        headers = kwargs.get('headers')\n        if not isinstance(headers, dict):\n            headers = kwargs['headers'] = dict(headers or ())\n"
+                  "        headers.setdefault('Allow', 'GET')\n" + _MNA_SUPER))
+B('f_c12_caller_mapping_item_store_after_pop', ['C12'], 'R12.a',
+  (E, _HE_POP, _HE_POP + "        if headers is not None:\n            headers['X-Error'] = self.message\n"))
+B('f_c12_caller_mapping_updated_inside_kwargs', ['C12'], 'R12.a',
+  (E, _MNA_SUPER, "        if 'headers' in kwargs:\n            kwargs['headers'].update(Allow='GET')\n" + _MNA_SUPER))
+B('f_c12_caller_positional_object_appended', ['C12'], 'R12.a',
+  (E, _MNA_SUPER, "        if args and isinstance(args[0], list):\n            args[0].append('Allow')\n" + _MNA_SUPER))
+B('f_c12_caller_mapping_through_second_local', ['C12'], 'R12.a',
+  (E, _HE_POP, _HE_POP + "        extra = headers\n        if extra:\n            extra.pop('Content-Length', None)\n"))
+T('f_c12_caller_mapping_copied_then_setdefault', ['C12', 'C13'],
+  (E, _MNA_SUPER, "        headers = dict(kwargs.get('headers') or {})\n        headers.setdefault('Allow', 'GET')\n        kwargs['headers'] = headers\n" + _MNA_SUPER))
+T('f_c12_own_entry_of_kwargs_updated', ['C12', 'C13'],
+  (E, _MNA_SUPER, "        kwargs['headers'] = dict(kwargs.get('headers') or {})\n        kwargs['headers'].update(Allow='GET')\n" + _MNA_SUPER))
+T('f_c12_caller_mapping_rebound_before_update', ['C12', 'C13'],
+  (E, _HE_POP, _HE_POP + "        if headers is not None:\n            headers = dict(headers)\n            headers['X-Error'] = str(self.message)\n"))
+
+# ---- C12 / R12.f: what a request is handed is not one long-lived mutable object ------------------------------------------
+_MC = ("    if multi:\n        def multi_converter(value):\n            if not value and optional:\n                return []\n")
+B('f_c12_converter_hands_out_captured_list', ['C12'], 'R12.f',
+  (R, _MC, "    if multi:\n        empty = []\n\n        def multi_converter(value):\n            if not value and optional:\n                return empty\n"))
+B('f_c12_converter_hands_out_captured_list_through_alias', ['C12'], 'R12.f',
+  (R, _MC, "    if multi:\n        empty = list()\n\n        def multi_converter(value):\n            result = empty\n            if not value and optional:\n                return result\n"))
+B('f_c12_converter_hands_out_module_list', ['C12'], 'R12.f',
+  (R, 'def build_converter(', '_NO_SEGMENTS = []\n\n\ndef build_converter('),
+  (R, _MC, _MC.replace('return []', 'return _NO_SEGMENTS')))
+B('f_c12_converter_hands_out_default_object', ['C12'], 'R12.f',
+  (R, _MC, _MC.replace('def multi_converter(value):', 'def multi_converter(value, empty=[]):').replace('return []', 'return empty')))
+B('f_c12_converter_hands_out_captured_list_conditionally', ['C12'], 'R12.f',
+  (R, _MC, "    if multi:\n        empty = []\n\n        def multi_converter(value):\n            if not value:\n                return empty if optional else [converter('')]\n"))
+B('f_c12_ring_ctor_closure_hands_out_captured_dict', ['C12'], 'R12.f',
+  (CTX, '    def _create_render(self):\n', '    def _create_render(self):\n        blank = {}\n'),
+  (CTX, '            if not isinstance(context, Mapping):\n                return next()\n', '            if not isinstance(context, Mapping):\n                return blank\n'))
+B('f_c12_ring_hands_out_class_level_list', ['C12'], 'R12.f',
+  (URL, 'class ScriptRootMiddleware(Middleware):\n', 'class ScriptRootMiddleware(Middleware):\n    roots = []\n\n    def known_roots(self):\n        return self.roots\n\n'))
+T('f_c12_converter_hands_out_captured_tuple', ['C12'],
+  (R, _MC, "    if multi:\n        empty = ()\n\n        def multi_converter(value):\n            if not value and optional:\n                return list(empty)\n"))
+T('f_c12_converter_hands_out_captured_immutable', ['C12'],
+  (R, "    def single_converter(value):\n        if not value and optional:\n            return None\n",
+      "    missing = None\n\n    def single_converter(value):\n        if not value and optional:\n            return missing\n"))
+T('f_c12_converter_copies_captured_list', ['C12'],
+  (R, _MC, "    if multi:\n        empty = []\n\n        def multi_converter(value):\n            if not value and optional:\n                return list(empty)\n"))
+T('f_c12_ring_request_closure_hands_out_own_dict', ['C12'],
+  (URL, _URL_KW, _URL_KW.replace('        kwargs = {}\n', '        kwargs = {}\n\n        def collected():\n            return kwargs\n')))
+
+# ---- C13 / R13.f: stores on the request object before dispatch cannot raise out of the WSGI callable -------------------------
+B('f_c13_stamp_guard_narrowed', ['C13'], 'R13.f',
+  (A, _TAG, _TAG.replace('        except Exception:\n', '        except AttributeError:\n')))
+B('f_c13_stamp_guard_narrowed_to_tuple', ['C13'], 'R13.f',
+  (A, _TAG, _TAG.replace('        except Exception:\n', '        except (AttributeError, TypeError):\n')))
+B('f_c13_stamp_unguarded', ['C13'], 'R13.f',
+  (A, _TAG, '        request.request_id = next(_REQ_ID_ITER)\n        request.request_guid = int2hexguid(request.request_id)\n'))
+B('f_c13_stamp_handler_reraises', ['C13'], 'R13.f',
+  (A, _TAG, _TAG.replace('            pass\n', "            raise RuntimeError('request type %r does not take an id' % self.request_type)\n")))
+B('f_c13_stamp_narrow_handler_first_reraises', ['C13'], 'R13.f',
+  (A, _TAG, _TAG.replace('        except Exception:\n', '        except TypeError:\n            raise\n        except Exception:\n')))
+B('f_c13_stamp_second_store_after_swallowing_handler', ['C13'], 'R13.f',
+  (A, _TAG, _TAG.replace('        else:\n            request.request_guid', '        request.request_guid').replace(
+      '            request.request_guid = int2hexguid(request.request_id)\n', '        request.request_guid = int2hexguid(getattr(request, "request_id", 0))\n')))
+B('f_c13_stamp_helper_guard_narrowed', ['C13'], 'R13.f',
+  (A, _TAG, '        self.tag_request(request)\n'),
+  (A, _CALL, _CALL + '\n    def tag_request(self, req):\n        try:\n            req.request_id = next(_REQ_ID_ITER)\n'
+                     '        except AttributeError:\n            return\n        req.request_guid = int2hexguid(req.request_id)\n'))
+B('f_c13_stamp_setattr_unguarded', ['C13'], 'R13.f',
+  (A, _TAG, _TAG + "        setattr(request, 'received_by', self)\n"))
+T('f_c13_stamp_both_stores_in_one_guard', ['C13', 'C12'],
+  (A, _TAG, '        try:\n            request.request_id = next(_REQ_ID_ITER)\n            request.request_guid = int2hexguid(request.request_id)\n'
+            '        except Exception:\n            pass\n'))
+T('f_c13_stamp_bare_except', ['C13', 'C12'],
+  (A, _TAG, _TAG.replace('        except Exception:\n', '        except:\n')))
+T('f_c13_stamp_base_exception_named', ['C13', 'C12'],
+  (A, _TAG, _TAG.replace('        except Exception:\n', '        except BaseException as e:\n')))
+T('f_c13_stamp_helper_call_guarded_by_caller', ['C13'],
+  (A, _TAG, '        try:\n            self.tag_request(request)\n        except Exception:\n            pass\n'),
+  (A, _CALL, _CALL + '\n    def tag_request(self, req):\n        req.request_id = next(_REQ_ID_ITER)\n        req.request_guid = int2hexguid(req.request_id)\n'))
+
+# ---- C13 / R13.g: header values of unknown type reach werkzeug only through its normalising entry points -----------------------
+B('f_c13_headers_copied_as_list_of_items', ['C13'], 'R13.g',
+  (E, _HE_POP, _HE_POP + "        if headers is not None and hasattr(headers, 'items'):\n            headers = list(headers.items())\n"))
+B('f_c13_headers_copied_by_comprehension', ['C13'], 'R13.g',
+  (E, _HE_POP, _HE_POP + "        if isinstance(headers, dict):\n            headers = [(k, v) for k, v in headers.items()]\n"))
+B('f_c13_headers_sorted_pairs', ['C13'], 'R13.g',
+  (E, "                                            headers=headers,\n", "                                            headers=sorted((headers or {}).items()),\n"))
+B('f_c13_headers_list_through_second_local', ['C13'], 'R13.g',
+  (E, _HE_POP, _HE_POP + "        pairs = list(headers.items()) if headers else None\n        headers = pairs\n"))
+T('f_c13_headers_copied_as_mapping', ['C13', 'C12'],
+  (E, _HE_POP, _HE_POP + "        if headers is not None and hasattr(headers, 'items'):\n            headers = dict(headers.items())\n"))
+T('f_c13_headers_pairs_made_strings', ['C13', 'C12'],
+  (E, _HE_POP, _HE_POP + "        if isinstance(headers, dict):\n            headers = [(str(k), str(v)) for k, v in headers.items()]\n"))
+T('f_c13_headers_own_constant_pairs', ['C13', 'C12'],
+  (E, _HE_POP, _HE_POP + "        if headers is None:\n            headers = [('X-Clastic-Error', '%s' % self.code)]\n"))
